@@ -294,14 +294,20 @@ def impl_schedule(obj, method, perm, shuffle_log=None, scheduler=None, **kw):
 # A call is a dict
 #   {"kind": "gate",  "N", "gates": specs, "shuf": recorded shuffles or None, "repeat": r, "cycles": bool, "as_circuit": bool}
 #   {"kind": "pulse", "ins": specs, "durs": numerators, "den", "shuf", "cycles": bool}
-# (`cycles`: the call asks for `return_cycles_list=True`).
+# (`cycles`: the call asks for `return_cycles_list=True`), optionally with `"obj": id, "edits": [...]`: the call schedules
+# the SAME circuit / list object as the earlier calls with that id, edited in place (see apply_edits).
 
 class SchedulerChain:
     """one Scheduler object per setting, reused for up to `maxlen` consecutive calls; `calls(key)` is the history so far"""
 
     def __init__(self, maxlen=6):
         self.maxlen = maxlen
-        self.obj, self.hist = {}, {}
+        self.obj, self.hist, self.store = {}, {}, {}
+        self.ids = 0
+
+    def new_id(self):
+        self.ids += 1
+        return self.ids
 
     def get(self, method, perm, need=1):
         """the Scheduler object to use for the next `need` calls of this setting and the list recording its history"""
@@ -310,33 +316,151 @@ class SchedulerChain:
         if key not in self.obj or len(self.hist[key]) + need > self.maxlen:
             self.obj[key] = Scheduler(method, allow_permutation=perm)
             self.hist[key] = []
+            self.store[key] = {}
         return self.obj[key], self.hist[key]
 
+    def objects(self, method, perm):
+        """the persistent circuit / list objects of the current history of this setting"""
+        return self.store[(method, bool(perm))]
 
-def run_call(scheduler, call, method, perm, gate_of=None):
-    """one call of a history on the given Scheduler object -> (status, result)"""
+
+def apply_edits(L, edits, den=1):
+    """edit the list `L` (a list of Gate objects, `QubitCircuit.gates`, or a list of Instruction objects) IN PLACE:
+      ["set", i, spec]  ["insert", i, spec]  ["del", i]                 (gate and pulse mode; pulse specs carry the duration:
+                                                                          ["set", i, spec, dur])
+      ["retarget", i, targets, controls]   re-assign the qubits of the Gate object itself (gate mode)
+      ["dur", i, d]                        re-assign the duration of the Instruction object itself (pulse mode)"""
+    _, Instruction, _, _, _ = _mods()
+
+    def mk(op):
+        return make_gate(op[2]) if len(op) == 3 else Instruction(make_gate(op[2]), duration=op[3] / den)
+    for op in edits:
+        if op[0] == "set":
+            L[op[1]] = mk(op)
+        elif op[0] == "insert":
+            L.insert(op[1], mk(op))
+        elif op[0] == "del":
+            del L[op[1]]
+        elif op[0] == "retarget":
+            L[op[1]].targets = list(op[2])
+            L[op[1]].controls = list(op[3]) if op[3] else None
+        elif op[0] == "dur":
+            L[op[1]].duration = op[2] / den
+        else:
+            raise ValueError(op)
+
+
+def edited_specs(specs, edits, durs=None):
+    """the content of the object after `edits` (pure; mirrors apply_edits) -> specs  or  (specs, durs)"""
+    specs = [list(x) for x in specs]
+    durs = list(durs) if durs is not None else None
+    for op in edits:
+        if op[0] == "set":
+            specs[op[1]] = list(op[2])
+            if durs is not None:
+                durs[op[1]] = op[3]
+        elif op[0] == "insert":
+            specs.insert(op[1], list(op[2]))
+            if durs is not None:
+                durs.insert(op[1], op[3])
+        elif op[0] == "del":
+            del specs[op[1]]
+            if durs is not None:
+                del durs[op[1]]
+        elif op[0] == "retarget":
+            specs[op[1]] = [specs[op[1]][0], list(op[2]), list(op[3]), specs[op[1]][3]]
+        elif op[0] == "dur":
+            durs[op[1]] = op[2]
+    return specs if durs is None else (specs, durs)
+
+
+def random_edits(rng, specs, N, pool, durs=None, dur_choices=None):
+    """one or two in-place edits of an object with content `specs` (on N qubits; new gates from the placed `pool`);
+    pulse mode when `durs` is given.  -> list of edit operations"""
+    edits, cur = [], [list(x) for x in specs]
+    cd = list(durs) if durs is not None else None
+    for _ in range(rng.choice([1, 1, 2])):
+        kinds = ["set", "set", "insert"]
+        if len(cur) > 1:
+            kinds.append("del")
+        if cur:
+            kinds.append("retarget" if durs is None else "dur")
+        kind = rng.choice(kinds) if cur else "insert"
+        if kind in ("set", "insert"):
+            n, t, c = rng.choice(pool)
+            spec = [n, list(t), list(c), arg_for(n, rng.randrange(6)) if n in LIBRARY else None]
+            i = rng.randrange(len(cur) + (kind == "insert")) if cur else 0
+            op = [kind, i, spec] + ([rng.choice(dur_choices)] if durs is not None else [])
+        elif kind == "del":
+            op = ["del", rng.randrange(len(cur))]
+        elif kind == "dur":
+            op = ["dur", rng.randrange(len(cur)), rng.choice(dur_choices)]
+        else:
+            i = rng.randrange(len(cur))
+            n, t, c, _ = cur[i]
+            qs = rng.sample(range(N), len(t) + len(c))
+            op = ["retarget", i, qs[:len(t)], qs[len(t):]]
+        edits.append(op)
+        if durs is None:
+            cur = edited_specs(cur, [op])
+        else:
+            cur, cd = edited_specs(cur, [op], cd)
+    return edits
+
+
+def _content(obj):
+    L = obj.gates if hasattr(obj, "gates") else obj
+    return [[g.name, sorted(g.targets or []), sorted(g.controls or [])] for g in L]
+
+
+def run_call(scheduler, call, method, perm, gate_of=None, store=None, log=None):
+    """one call of a history on the given Scheduler object -> (status, result).  A call with an `"obj"` key schedules a
+    PERSISTENT object of the history (`store[obj]`: a QubitCircuit, a list of Gate objects or a list of Instruction objects,
+    built from fresh gate objects at its first use) after editing it in place by `call["edits"]`; `call["gates"]` /
+    `call["ins"]`, `call["durs"]` is its content at the time of the call."""
     _, Instruction, _, _, _ = _mods()
     mk = gate_of or make_gate
-    log = ShuffleLog(replay=call["shuf"]) if call.get("shuf") is not None else None
+    if log is None:             # `log`: a recording ShuffleLog of the caller (the correspondence) instead of a replay
+        log = ShuffleLog(replay=call["shuf"]) if call.get("shuf") is not None else None
     kw = {}
     if call.get("cycles"):
         kw["return_cycles_list"] = True
-    if call["kind"] == "gate":
-        if not call["gates"]:
-            obj = []
-        elif call.get("as_circuit"):
-            obj = make_circuit(call["N"], call["gates"])
-        else:
-            obj = [mk(s) for s in call["gates"]]
-        if call.get("repeat"):
-            kw["repeat_num"] = call["repeat"]
-        else:
-            kw["random_shuffle"] = log is not None
-    else:
+    pulse = call["kind"] != "gate"
+    specs = call["ins"] if pulse else call["gates"]
+    if call.get("obj") is not None and store is not None:
+        key = call["obj"]
         try:
-            obj = [Instruction(mk(s), duration=d / call["den"]) for s, d in zip(call["ins"], call["durs"])]
+            if key not in store:
+                if pulse:
+                    store[key] = [Instruction(make_gate(s), duration=d / call["den"]) for s, d in zip(specs, call["durs"])]
+                elif call.get("as_circuit"):
+                    store[key] = make_circuit(call["N"], specs)
+                else:
+                    store[key] = [make_gate(s) for s in specs]
+            else:
+                o = store[key]
+                apply_edits(o.gates if hasattr(o, "gates") else o, call.get("edits") or [], call.get("den", 1))
+        except Exception as e:          # constructors of the library are part of the code under test
+            return "other:" + type(e).__name__, None
+        obj = store[key]
+        if _content(obj) != [[s[0], sorted(s[1]), sorted(s[2])] for s in specs]:
+            raise AssertionError("harness: the edited object does not have the recorded content")
+    elif pulse:
+        try:
+            obj = [Instruction(mk(s), duration=d / call["den"]) for s, d in zip(specs, call["durs"])]
         except Exception as e:
             return "other:" + type(e).__name__, None
+    elif not specs:
+        obj = []
+    elif call.get("as_circuit"):
+        obj = make_circuit(call["N"], specs)
+    else:
+        obj = [mk(s) for s in specs]
+    if pulse:
+        kw["random_shuffle"] = log is not None
+    elif call.get("repeat"):
+        kw["repeat_num"] = call["repeat"]
+    else:
         kw["random_shuffle"] = log is not None
     return impl_schedule(obj, method, perm, log, scheduler=scheduler, **kw)
 
